@@ -394,7 +394,7 @@ theorem walk_live (co : Bytes → Bool) (run : Run) (pre ts ss : List Child) (mo
   | case6 run pre modified fired t ts' s ss' hc1 hc2 run1 t' f h ih =>
     intro hss
     obtain ⟨ihA, ihB, ihC⟩ := ih (fun x hx => hss x (List.mem_cons_of_mem _ hx))
-    have hm : Match t' s := update_match (childCmp_zero hc1 hc2) (childCmp_zero_kind hc1 hc2)
+    have hm : Match t' s := update_match (t := { t with name := s.name }) (ciEq_refl s.name) (show t.kind = s.kind from childCmp_zero_kind hc1 hc2)
       (hss s (List.mem_cons_self ..)) h
     refine ⟨?_, ?_, ?_⟩
     · intro x hx
@@ -693,6 +693,11 @@ theorem keyDenotes_vts (fac : Bytes) (sev : Nat) : Spec.keyDenotes bVts fac sev 
   have : Spec.splitFirst 46 bVts = none := by decide
   simp [Spec.keyDenotes, this]
 
+theorem keyDenotes_noDot {k : Bytes} (h : noDot k) (fac : Bytes) (sev : Nat) : Spec.keyDenotes k fac sev = false := by
+  have : Spec.splitFirst 46 k = none := by
+    rw [splitFirst_eq]; unfold noDot at h; rw [h]
+  simp [Spec.keyDenotes, this]
+
 theorem routes_false_of_reg {l : List Child} (h : ∀ t ∈ l, t.reg = true ∧ RegOK t) (fac : Bytes) (sev : Nat) (v : Bytes) :
     Spec.routes (entriesOf l) fac sev v = false := by
   unfold Spec.routes
@@ -700,7 +705,7 @@ theorem routes_false_of_reg {l : List Child} (h : ∀ t ∈ l, t.reg = true ∧ 
   intro e he
   obtain ⟨t, ht, rfl⟩ := List.mem_map.mp he
   have := ((h t ht).2 (h t ht).1).1
-  simp [Child.entry, this, keyDenotes_vts]
+  simp [Child.entry, keyDenotes_noDot this]
 
 theorem load_alive_pre {co : Bytes → Bool} {c : ConfSt} {file : Option (List RawEntry)}
     (h : (load co c file).run.exit = none) : c.run.exit = none := by
@@ -735,7 +740,7 @@ theorem live_routes_scratch {co : Bytes → Bool} {c : ConfSt} (hg : Good c) (hr
     obtain ⟨y', hy', hs⟩ := this
     intro hry
     have := (hg'.live y' hy').reg (hs.2.2.2 ▸ hry)
-    exact ⟨hs.1.trans this.1, hs.2.1.trans this.2⟩
+    exact ⟨hs.1 ▸ this.1, hs.2.1.trans this.2⟩
   rw [hlive]
   have hiff : Spec.routes (entriesOf (walk co c.run [] c.live (scratchOf es) false 0).live) fac sev v = true ↔
       Spec.routes (entriesOf (scratchOf es)) fac sev v = true := by
@@ -749,7 +754,7 @@ theorem live_routes_scratch {co : Bytes → Bool} {c : ConfSt} (hg : Good c) (hr
         · simp only [Child.entry] at hk ⊢; rw [← keyDenotes_congr hm.1]; exact hk
         · simp only [Child.entry] at hv ⊢; rw [← hm.2.2]; exact hv
       · have := (hreg y hy hry).1
-        simp only [Child.entry, this, keyDenotes_vts] at hk
+        simp only [Child.entry, keyDenotes_noDot this] at hk
         cases hk
     · rintro ⟨_, ⟨s, hs, rfl⟩, hk, hv⟩
       obtain ⟨y, hy, hm⟩ := hB s hs
